@@ -2,52 +2,8 @@
    (lemmas behind Props/C06.v). *)
 From Coq Require Import NArith List Bool Lia PeanoNat.
 From GT Require Import Base.GErrStr.
-From GT Require Import GErrModel.
+From GT Require Import GErrModel GErrHist.
 Import ListNotations.
-
-(* ---------------------------------------------------------------- well-formed stores *)
-(* a foreign error whose Unwrap chain contains no gerror value (or nil) *)
-Fixpoint pure (v : val) : bool :=
-  match v with VNil => true | VF _ _ _ u => pure u | _ => false end.
-
-(* every cell is a root (a factory as the pool builds them: no back-reference, no converted
-   error; extension factories made with FactoryOf) or derived (back-reference to a root) *)
-Inductive shape (st : store) (c : cell) : Prop :=
-| ShRoot :
-    g_fref (c_g c) = VNil -> g_serr (c_g c) = VNil ->
-    (forall x, c_x c = Some x -> g_isfac (c_g c) = true) -> shape st c
-| ShDer o co :
-    g_fref (c_g c) = VG o -> nth_error st o = Some co ->
-    g_fref (c_g co) = VNil -> g_serr (c_g co) = VNil ->
-    (forall x, c_x co = Some x -> g_isfac (c_g co) = true) ->
-    g_isfac (c_g c) = false -> pure (g_serr (c_g c)) = true -> shape st c.
-
-Definition wf (st : store) : Prop := forall i c, nth_error st i = Some c -> shape st c.
-
-(* the factory an error was derived from *)
-Definition origin (st : store) (i : nat) : nat :=
-  match nth_error st i with
-  | Some c => match g_fref (c_g c) with VG o => o | _ => i end
-  | None => i
-  end.
-
-(* a gerror value that is valid in the store: a pointer to an existing record / struct *)
-Definition gv (st : store) (v : val) : option nat :=
-  match v with
-  | VG i => match nth_error st i with Some _ => Some i | None => None end
-  | VX i => match nth_error st i with
-            | Some c => match c_x c with Some _ => Some i | None => None end
-            | None => None
-            end
-  | _ => None
-  end.
-
-(* the value a cell is handed out as *)
-Definition val_of (st : store) (i : nat) : val :=
-  match nth_error st i with
-  | Some c => match c_x c with Some _ => VX i | None => VG i end
-  | None => VG i
-  end.
 
 Lemma gv_cell st v i : gv st v = Some i -> exists c, nth_error st i = Some c /\ as_gerror v = Some i.
 Proof.
@@ -437,10 +393,6 @@ Proof.
 Qed.
 
 (* ---------------------------------------------------------------- calls preserve well-formedness *)
-(* what may be passed as the error argument of Convert / ConvertS *)
-Definition admissible (st : store) (v : val) : Prop :=
-  v = VNil \/ (exists i, gv st v = Some i) \/ (exists t c p u, v = VF t c p u /\ pure u = true).
-
 Lemma shape_extend st ext c : shape st c -> shape (st ++ ext) c.
 Proof.
   intros [F S X | o co F Eo Fo So Xo N P]; [apply ShRoot; assumption|].
@@ -502,10 +454,6 @@ Proof.
     eapply ShDer with (o := o) (co := co); simpl; fold g'; auto.
     rewrite nth_error_app1; [exact Eo|]. apply nth_error_Some. congruence.
 Qed.
-
-(* a wiring table records the converted error only behind the early return *)
-Definition guarded_wiring (xw : method -> wiring) : Prop :=
-  forall m, w_serr (xw m) = EErr -> w_guard (xw m) = true.
 
 Lemma base_wiring_guarded : guarded_wiring base_wiring.
 Proof. intros m; destruct m; simpl; congruence. Qed.
